@@ -430,6 +430,7 @@ def checkStep (e : Env) (pre : Sys) (op : Op) (res : Res) (post : Sys) (origin :
          | some pool' => if pool'.totalReward - pool.totalReward = minted then [] else [("C08", s!"clause=rewardCounter cls=none rec=minted={minted},counted={pool'.totalReward - pool.totalReward}")]
          | none => [("C08", "clause=rewardCounter cls=none rec=pool-gone")]))
    | .genesis => []
+   | .unmodelled _ => []   -- validator slashing by x/staking burns bonded coins: not storage code
    | _ => if minted ≠ 0 then [("C08", s!"clause=mintOutsideBegin cls=none rec={minted}")] else []) ++
   -- C08: a claim pays out the whole-coin part of the settled reward: what stays recorded is a fraction
   (match op, res with
